@@ -92,6 +92,14 @@ class _array(array.array):
     def __reduce__(self):
         return (self.__class__, (list(self),), self.__dict__)
 
+    def __reduce_ex__(self, protocol):
+        # array.array defines its own __reduce_ex__, which never calls
+        # __reduce__ and, for protocols 0 to 2, asks for the object to be
+        # rebuilt with cls(typecode, list): a call __new__ above rejects.
+        if protocol < 3:
+            return self.__reduce__()
+        return super(_array, self).__reduce_ex__(protocol)
+
 
 class_replacers[array.array] = _array
 
